@@ -20,8 +20,12 @@ use verif_harness::util::*;
 use verif_harness::{Component, Mon, Rng, Tier};
 
 const P: &str = "C20";
-/// Generous real-time bound for one hub call (they normally finish in microseconds).
-const CALL_BOUND: Duration = Duration::from_millis(400);
+/// Generous real-time bound for one hub call (they normally finish in microseconds, in one poll).
+const CALL_BOUND: Duration = Duration::from_millis(250);
+/// Once a call has been seen to block, later calls of the same run get a short bound so that a
+/// blocking implementation is reported quickly instead of stalling the whole check.
+const CALL_BOUND_AFTER_BLOCK: Duration = Duration::from_millis(3);
+static SEEN_BLOCK: std::sync::atomic::AtomicBool = std::sync::atomic::AtomicBool::new(false);
 
 struct Conn {
     /// Kept alive for the whole case, like `push_tx` in `control_socket::handle`.
@@ -73,9 +77,14 @@ impl HubC {
     fn bounded<T>(&self, fut: impl Future<Output = T>) -> (Option<T>, usize) {
         let mut polls = 0usize;
         let mut fut = std::pin::pin!(fut);
+        let bound = if SEEN_BLOCK.load(std::sync::atomic::Ordering::Relaxed) {
+            CALL_BOUND_AFTER_BLOCK
+        } else {
+            CALL_BOUND
+        };
         let r = self.rt.block_on(async {
             tokio::time::timeout(
-                CALL_BOUND,
+                bound,
                 std::future::poll_fn(|cx| {
                     polls += 1;
                     fut.as_mut().poll(cx)
@@ -83,6 +92,9 @@ impl HubC {
             )
             .await
         });
+        if r.is_err() {
+            SEEN_BLOCK.store(true, std::sync::atomic::Ordering::Relaxed);
+        }
         (r.ok(), polls)
     }
 
